@@ -1,5 +1,8 @@
 (* Registers are never empty at a quiescent point; hence a network in which no node holds a qubit has no simulated
-   qubit and no register left anywhere (used by C11: teardown returns the register and simulated-qubit counts, too). *)
+   qubit and no register left anywhere (used by C11: teardown returns the register and simulated-qubit counts, too).
+   This holds for histories WITHOUT the client operation remote_add_register (ONewReg): that operation creates an empty
+   register on purpose (`core_op`, `reachable_core`; the counterexample is `nonempty_needs_core_refuted` below).  Every other
+   operation -- remote_new_qubit_inreg included, it only ever fills a register -- keeps registers non-empty. *)
 From Coq Require Import List Bool Arith Lia Permutation.
 From SQ Require Import Base.ListUtil Stab.Tableau Net.Model Net.Refusal Net.Capacity Net.Handles Net.Fresh
      Net.Inv Net.InvNew Net.InvMeas Net.InvMerge Net.InvPull Net.InvStep Net.Bookkeeping Net.Placement.
@@ -109,9 +112,16 @@ Proof.
   apply andb_true_iff in C as [C _]. apply Nat.eqb_eq in C. subst j. rewrite E in Hr. apply (N i r Hr). discriminate.
 Qed.
 
-Theorem step_nonempty s o : inv s -> nonempty s -> nonempty (fst (step s o)).
+(* the operations that never leave an empty register behind: all but the client's remote_add_register *)
+Definition core_op (o : op) : Prop := match o with ONewReg _ _ => False | _ => True end.
+Definition reachable_core (s : net) : Prop := exists caps ops, Forall core_op ops /\ s = run (init_net caps) ops.
+
+Lemma reachable_core_reachable s : reachable_core s -> reachable s.
+Proof. intros (caps & ops & _ & E). exists caps, ops. exact E. Qed.
+
+Theorem step_nonempty s o : core_op o -> inv s -> nonempty s -> nonempty (fst (step s o)).
 Proof.
-  intros H N. destruct o; simpl.
+  intros CO H N. destruct o; simpl.
   - (* new *)
     destruct (Nat.ltb_spec n (length (nodes s))); [|exact N].
     unfold op_new. destruct (Nat.leb _ _); [exact N|]. unfold add_register. destruct (Nat.leb _ _); [exact N|]. cbn [fst].
@@ -218,6 +228,16 @@ Proof.
     assert (R1 : In r1 (regs (nth_node s1 (v_simNode q)))).
     { unfold s1, update_reg_at. rewrite nth_node_set_eq; auto. cbn [regs with_regs]. apply in_set_reg_new with (r := r); auto. }
     apply ne_set_virt; [reflexivity|]. apply ne_remove_sim; auto.
+  - (* newreg: excluded *)
+    destruct CO.
+  - (* newinreg: the register grows *)
+    destruct (Nat.ltb_spec n (length (nodes s))); [|exact N].
+    unfold op_new_inreg. destruct (negb _); [exact N|]. destruct (Nat.leb _ _); [exact N|].
+    destruct (find_reg _ _) as [r0|]; [|exact N]. destruct (Nat.leb _ _); [exact N|]. cbn [fst].
+    intros i r Hr _. rewrite nth_node_mk in Hr. destruct (Nat.ltb_spec n (length (nodes s))); try lia. rewrite andb_true_r in Hr.
+    destruct (Nat.eqb_spec i n) as [->|]; [|apply (N i r Hr); discriminate].
+    cbn [regs with_virt with_sims with_regs] in Hr. apply in_set_reg in Hr as [[Hr Nr]| ->]; [|simpl; lia].
+    apply (N n r Hr); discriminate.
 Qed.
 
 Lemma init_nonempty caps : nonempty (init_net caps).
@@ -231,24 +251,40 @@ Proof.
   rewrite E in Hr. contradiction.
 Qed.
 
-Lemma run_nonempty ops : forall s, ginv s -> nonempty s -> nonempty (run s ops).
+Lemma run_nonempty ops : forall s, Forall core_op ops -> ginv s -> nonempty s -> nonempty (run s ops).
 Proof.
-  induction ops as [|o ops IH]; intros s G N; simpl; auto.
-  apply IH; [apply step_ginv; auto | apply step_nonempty; auto; apply G].
+  induction ops as [|o ops IH]; intros s F G N; simpl; auto. inversion F; subst.
+  apply IH; [auto | apply step_ginv; auto | apply step_nonempty; auto; apply G].
 Qed.
 
-Theorem reachable_nonempty s : reachable s -> nonempty s.
+Theorem reachable_nonempty s : reachable_core s -> nonempty s.
 Proof.
-  intros (caps & ops & ->). apply run_nonempty; [|apply init_nonempty].
+  intros (caps & ops & F & ->). apply run_nonempty; [exact F | |apply init_nonempty].
   split; [apply init_hid_inv | apply init_inv].
 Qed.
 
+(* the hypothesis is needed: one remote_add_register leaves an (empty) register on a node that holds nothing *)
+Example nonempty_needs_core_refuted :
+  exists s, reachable s /\ (forall i, virt (nth_node s i) = []) /\
+            exists r, In r (regs (nth_node s 0)) /\ r_n r = 0 /\ numRegs (nth_node s 0) = 1.
+Proof.
+  exists (run (init_net [(2, 2)]) [ONewReg 0 3]). split; [exists [(2, 2)], [ONewReg 0 3]; reflexivity|]. split.
+  - intros [|[|i]]; reflexivity.
+  - exists (mkReg 0 3 0 [] []). vm_compute. auto.
+Qed.
+
+(* ... and the hypothesis is satisfiable by histories that do use client-made registers' other operation *)
+Example reachable_core_example :
+  reachable_core (run (init_net [(3, 3)]) [ONew 0; ONewInReg 0 0 0; OGate2 0 1 NCnot; OMeas 0 false true]).
+Proof. exists [(3, 3)], [ONew 0; ONewInReg 0 0 0; OGate2 0 1 NCnot; OMeas 0 false true]. split; [repeat constructor|reflexivity]. Qed.
+
 (* when no node holds a qubit, nothing is left anywhere: no simulated qubit, no register *)
 Theorem nothing_held_nothing_left s :
-  reachable s -> (forall i, virt (nth_node s i) = []) ->
+  reachable_core s -> (forall i, virt (nth_node s i) = []) ->
   forall i, sims (nth_node s i) = [] /\ regs (nth_node s i) = [] /\ numRegs (nth_node s i) = 0.
 Proof.
-  intros R Hv i. destruct (reachable_ginv s R) as [_ H]. pose proof (reachable_nonempty s R) as N.
+  intros RC Hv i. pose proof (reachable_core_reachable s RC) as R.
+  destruct (reachable_ginv s R) as [_ H]. pose proof (reachable_nonempty s RC) as N.
   assert (S0 : forall j, sims (nth_node s j) = []).
   { intro j. destruct (sims (nth_node s j)) as [|x t] eqn:E; auto. exfalso.
     destruct (inv_onto s H j x) as (k & q & Hq & _); [rewrite E; simpl; auto|]. rewrite Hv in Hq. contradiction. }
@@ -262,9 +298,10 @@ Proof.
 Qed.
 
 (* more generally: a node simulates at least one qubit per register it keeps *)
-Theorem registers_le_sims s i : reachable s -> length (regs (nth_node s i)) <= length (sims (nth_node s i)).
+Theorem registers_le_sims s i : reachable_core s -> length (regs (nth_node s i)) <= length (sims (nth_node s i)).
 Proof.
-  intros R. destruct (reachable_ginv s R) as [_ H]. pose proof (reachable_nonempty s R) as N.
+  intros RC. pose proof (reachable_core_reachable s RC) as R.
+  destruct (reachable_ginv s R) as [_ H]. pose proof (reachable_nonempty s RC) as N.
   pose proof (inv_nodes s H i) as OK. set (nd := nth_node s i) in *.
   (* injection register -> one of its simulated qubits *)
   assert (G : forall l, NoDup (map r_num l) -> incl l (regs nd) ->
@@ -291,5 +328,18 @@ Proof.
   pose proof (filter_length_le (fun x => existsb (fun r => Nat.eqb (s_reg x) (r_num r)) (regs nd)) (sims nd)). lia.
 Qed.
 
-Theorem registers_nonempty s i r : reachable s -> In r (regs (nth_node s i)) -> 0 < r_n r.
+Theorem registers_nonempty s i r : reachable_core s -> In r (regs (nth_node s i)) -> 0 < r_n r.
 Proof. intros R Hr. apply (reachable_nonempty s R i r Hr). discriminate. Qed.
+
+(* what remains true for ALL histories (remote_add_register included): when no node holds a qubit no simulated qubit is left, and
+   every register still listed is an empty one (made by remote_add_register and never used, or not used any more) *)
+Theorem nothing_held_only_empty_registers s :
+  reachable s -> (forall i, virt (nth_node s i) = []) ->
+  forall i, sims (nth_node s i) = [] /\ (forall r, In r (regs (nth_node s i)) -> r_n r = 0).
+Proof.
+  intros R Hv i. destruct (reachable_ginv s R) as [_ H].
+  assert (S0 : forall j, sims (nth_node s j) = []).
+  { intro j. destruct (sims (nth_node s j)) as [|x t] eqn:E; auto. exfalso.
+    destruct (inv_onto s H j x) as (k & q & Hq & _); [rewrite E; simpl; auto|]. rewrite Hv in Hq. contradiction. }
+  split; auto. intros r Hr. pose proof (ok_count _ (inv_nodes s H i) r Hr) as C. rewrite S0 in C. simpl in C. auto.
+Qed.
